@@ -44,7 +44,18 @@ impl<'a> G<'a> {
     }
   }
   fn expr(&mut self, cx: &Cx) -> String {
-    match self.rng.below(14) {
+    match self.rng.below(16) {
+      // an arrow function that *starts* the expression (and hence the statement, when used as one): its metadata key
+      // coincides with the statement's
+      14 | 15 if cx.depth < 4 => {
+        self.feats.push("leading-arrow");
+        let b = self.block_body(&Cx { in_fn: true, in_loop: false, in_switch: false, labels: vec![], loop_labels: vec![], depth: cx.depth + 1 }, 2);
+        if self.rng.chance(1, 3) {
+          format!("async () => {{ {} }}", b)
+        } else {
+          format!("() => {{ {} }}", b)
+        }
+      }
       0 => "x".into(),
       1 => "this".into(),
       2 => "f()".into(),
